@@ -89,7 +89,16 @@ func run(raw json.RawMessage) driver.Result {
 	panic("bad kind " + in.K)
 }
 
+// words with a meaning somewhere else: Go keywords and predeclared names, lower-cased initialisms, literals
+var specialWords = []string{"type", "go", "if", "map", "range", "default", "func", "var", "for", "chan", "case", "select",
+	"struct", "interface", "import", "package", "return", "switch", "const", "else", "goto", "break", "defer", "continue", "fallthrough",
+	"nil", "true", "false", "int", "string", "error", "len", "new", "make", "iota", "any", "id", "ip", "url", "api", "http", "https",
+	"json", "uid", "uuid", "utf8", "vm", "ui", "tcp", "null", "nan", "inf", "x", "e1", "e"}
+
 func genWord(r *coqfmt.Rng) string {
+	if r.Chance(1, 8) {
+		return coqfmt.Pick(r, specialWords)
+	}
 	n := 1 + r.Intn(6)
 	if r.Chance(1, 4) {
 		n = 1
@@ -184,7 +193,24 @@ func gen(r *coqfmt.Rng, n int, tier string) []json.RawMessage {
 					ws[j] = genAnyWord(r)
 				}
 			}
-			add(input{K: "rt", Scheme: r.Intn(6), Words: ws})
+			scheme := r.Intn(6)
+			add(input{K: "rt", Scheme: scheme, Words: ws})
+			if r.Chance(1, 3) {
+				// the same letters cut into words at other places, same scheme, same process: an encoding or
+				// decoding remembered under anything less than the word LIST must not leak from one to the other
+				all := strings.Join(ws, "")
+				var ws2 []string
+				for len(all) > 0 {
+					k := 1 + r.Intn(4)
+					if k > len(all) {
+						k = len(all)
+					}
+					ws2 = append(ws2, all[:k])
+					all = all[k:]
+				}
+				add(input{K: "rt", Scheme: scheme, Words: ws2})
+				add(input{K: "rt", Scheme: scheme, Words: ws})
+			}
 		case x < 8:
 			nt := 1 + r.Intn(5)
 			ts := make([]tok, nt)
